@@ -3,6 +3,7 @@
 # usage: try_mutant.sh <worktree> <patch.diff> <check id>...
 wt=$1; patch=$2; shift 2
 git -C "$wt" checkout -q -- xmlschema 2>/dev/null
+git -C "$wt" checkout -q --detach "$(git -C /repo rev-parse HEAD)"   # follow fix: commits in /repo
 git -C "$wt" apply "$patch" || { echo "patch does not apply"; exit 2; }
 for id in "$@"; do
   out=$(VERIF_REPO=$wt PYTHONPATH=$wt /verif/check $id --tier quick 2>&1); rc=$?
